@@ -151,6 +151,10 @@ func (i *NetflowV9) run() {
 		netflowV9UDPCh <- NetflowV9UDPMsg{raddr, b[:n]}
 	}
 
+	// only the sender closes the channel: a datagram read just before
+	// the stop must still be handed over, not hit a closed channel
+	close(netflowV9UDPCh)
+
 }
 
 func (i *NetflowV9) shutdown() {
@@ -169,9 +173,8 @@ func (i *NetflowV9) shutdown() {
 		logger.Println("couldn't not dump template", err)
 	}
 
-	// logging and close UDP channel
+	// logging, the UDP channel is closed by run() once it left its read loop
 	logger.Println("netflow v9 has been shutdown")
-	close(netflowV9UDPCh)
 }
 
 func (i *NetflowV9) netflowV9Worker(wQuit chan struct{}) {
